@@ -479,6 +479,9 @@ class Engine(object):
             if oc.dotted is not None:
                 if name in self.classes.attrs(oc.dotted):
                     return VObj(ctx.attr_read('%s.%s' % (oc.name, name), Z.Obj, v.z))
+                # an attribute this very path stored on this very object exists from then on
+                if any(name == n_ and v.z.eq(o_) for (o_, n_) in getattr(ctx, 'attr_set', [])):
+                    return VObj(ctx.attr_read('%s.%s' % (oc.name, name), Z.Obj, v.z))
                 return None
             if oc.closed:
                 return None
